@@ -22,6 +22,7 @@ func checkC14(c *Check, a *Anchors) {
 	c14ExitCode(c, a)
 	freshElements(c, a, "defer-element-fresh")
 	resolvesThroughGetTask(c, a, "resolves-through-GetTask")
+	cmdTemplatedWhole(c, a) // a deferred task call sees .EXIT_CODE and the deferring task's variables only if its name and vars are rendered too
 }
 
 func c14Registration(c *Check, a *Anchors) {
